@@ -87,6 +87,10 @@ func c19schedItems(c *Ctx) []Item {
 		// a look-up that overlaps a removal, and a look-up after both (a memo published late is served here)
 		{get, rem, get}, {get, clr, get},
 	}
+	if c.thorough() {
+		// four operations on one name (24 sequential orders per path combination)
+		tuples = append(tuples, []regOp{reg, reg, rem, get}, []regOp{reg, rem, get, get}, []regOp{reg, clr, reg, get}, []regOp{get, rem, reg, get})
+	}
 	// operations on two different names: one operation must not disturb the other's key
 	reg2 := regOp{"Registry", c19Name2, "service"}
 	get2 := regOp{"Get", c19Name2, ""}
